@@ -59,7 +59,7 @@ def resize_case(pt, sw, sh, dw, dh, alg="conv", flt="Lanczos3", m=2, alpha=True,
     if dst_c:
         dst["c"] = dst_c
     lg = list(log)
-    if "pipeline" in chk and "hooks" not in lg:
+    if ("pipeline" in chk or "threads" in chk) and "hooks" not in lg:
         lg.append("hooks")
     case = {"op": "resize", "api": api, "cpu": cpu, "threads": threads, "rz": rz, "src": src, "dst": dst, "opt": opt, "log": lg}
     sbox = list(box) if box is not None else [0, 0, sw * Q, sh * Q]
@@ -85,7 +85,7 @@ def img_case(op, dst_pt, dw, dh, src_pt=None, sw=None, sh=None, src_c=None, dst_
              mapper=None, direction=None):
     """mul / div / mul_inplace / div_inplace / map / map_inplace / convert through the generic executor."""
     case = {"op": op, "api": api, "cpu": cpu, "threads": threads,
-            "dst": {"pt": dst_pt, "w": dw, "h": dh, "sent": sent}, "log": list(log)}
+            "dst": {"pt": dst_pt, "w": dw, "h": dh, "sent": sent}, "log": list(log) + (["hooks"] if "threads" in chk else [])}
     if dst_lay:
         case["dst"]["lay"] = dst_lay
     if dst_c:
@@ -154,6 +154,19 @@ def hook_line(cid, h):
     return o
 
 
+def thread_line(cid, h):
+    k = h["k"]
+    v = h.get("v", [])
+    o = {"ev": "thr", "id": cid, "k": k, "t": h.get("t", -1)}
+    if k == "split_plan":
+        o.update(axis="h" if v[0] == 0 else "v", nimg=v[1], w=v[2], h=v[3], threads=v[4], maxp=v[5], off=v[6])
+    elif k == "split_bands":
+        o["sizes"] = v
+    else:
+        o.update(w=v[0], h=v[1])
+    return o
+
+
 def retk(ret):
     return ret.split(":")[0] if ret else "none"
 
@@ -178,6 +191,11 @@ def write_trace(path, cases, recs, keep=None):
             n += 1
             for h in r.get("hooks", []):
                 if h["k"] in THREAD_HOOKS:
+                    if "threads" in sp["chk"]:
+                        f.write(json.dumps(thread_line(c["id"], h), separators=(",", ":")) + "\n")
+                        n += 1
+                    continue
+                if "pipeline" not in sp["chk"]:
                     continue
                 f.write(json.dumps(hook_line(c["id"], h), separators=(",", ":")) + "\n")
                 n += 1
